@@ -161,7 +161,7 @@ impl Prop for C11 {
 /// retain a little memory per wake-up, which over millions of schedules added up to gigabytes per worker.
 const REBUILD_AFTER: u64 = 40_000;
 
-fn fixture(ctx: &mut Ctx) -> R<()> {
+pub fn fixture(ctx: &mut Ctx) -> R<()> {
     let mut counter = 0;
     if let Some(fx) = ctx.fixtures.get_mut("c11") {
         let f: &mut Fixture = fx.downcast_mut::<Fixture>().ok_or("fixture type")?;
